@@ -543,7 +543,7 @@ class GVN:
             key = ",".join(self.sshow(x, maxdepth=3) for x in pos[1:]) + str(
                 sorted((k, self.sshow(v)) for k, v in kws.items()))
             return self.lin1(self._n(pos[0]), lambda a: self.atom(fn, a, key))
-        if fn == "dot" and len(pos) == 2:
+        if fn in ("dot", "matmul") and len(pos) == 2:
             return self.bilin(self._n(pos[0]), self._n(pos[1]), lambda x, y: self.atom("matmul", x, y))
         if fn == "outer" and len(pos) == 2:
             return self.bilin(self._n(pos[0]), self._n(pos[1]), lambda x, y: self.atom("outer", x, y))
@@ -831,6 +831,61 @@ class GVN:
             if best is None or key < best:
                 best = key
         return self.atom("einsum", best[0], best[1])
+
+
+MODELLED = {"einsum", "matmul", "T", "perm", "get", "inv", "invf", "det", "prod", "div", "divf", "conj", "real", "seq",
+            "stackseq", "stack", "elem", "carry", "scan", "sum", "trace", "diag", "diagonal", "reshape", "outer",
+            "vstack", "hstack", "block", "concatenate", "leaf", "sym", "const", "op", "phi", "v", "sl", "tup", "pow",
+            "exp", "sqrt", "abs", "where", "setitem", "struct"}
+
+
+def compare_forms(g: "GVN", a: Form, b: Form) -> str:
+    """'equal' | 'differ' | 'undecided'.
+    Value numbering decides equality of two expressions up to the algebra it models.  When the parts in which two
+    forms differ are written with *different vocabularies* (one side uses an operation the other side does not use at
+    all, e.g. tensordot / trace(axis1, axis2) against einsum, or a function GVN-L does not interpret), inequality of
+    the numbers says nothing about inequality of the values: the verdict is 'undecided', never a violation."""
+    if f_key(a) == f_key(b):
+        return "equal"
+    da = {k: v for k, v in a.items() if b.get(k) != v}
+    db = {k: v for k, v in b.items() if a.get(k) != v}
+
+    def kinds(form) -> set:
+        out = set()
+        for at in form:
+            for x in g._refs(g.atom_keys[at]) | {at}:
+                k = g.atom_keys[x]
+                out.add(k[0] if k[0] != "fn" else "fn:" + str(k[1]))
+        return out
+
+    ka, kb = kinds(da), kinds(db)
+    # array operations that re-express a contraction / axis shuffle the algebra writes with einsum, matmul, T, perm:
+    # uninterpreted here, so a difference that involves one of them is a difference of notation as far as we can tell
+    alt = {"tensordot", "swapaxes", "moveaxis", "rollaxis", "inner", "vdot", "kron", "multi_dot", "einsum_path",
+           "broadcast_to", "expand_dims", "squeeze", "tile", "repeat", "apply_along_axis", "vectorize"}
+    unmodelled = {k for k in ka ^ kb if (k.startswith("fn:") and k.split(".")[-1].split(":")[-1] in alt)
+                  or k in ("vmapcall", "einsum_raw")}
+    trace_axes = any(g.atom_keys[x][0] == "trace" and len(g.atom_keys[x]) > 2 and "axis" in str(g.atom_keys[x][2])
+                     for f_ in (da, db) for at in f_ for x in g._refs(g.atom_keys[at]) | {at})
+    if unmodelled or trace_axes:
+        return "undecided"
+    # the same contraction written once with einsum and once with matmul / dot / @ is not related by the numbering
+    # (operand ranks are unknown); with identical inputs on both sides this is a difference of notation
+    def leaves(form) -> frozenset:
+        out = set()
+        for at in form:
+            for x in g._refs(g.atom_keys[at]) | {at}:
+                k = g.atom_keys[x]
+                if k[0] in ("leaf", "sym") or (k[0] == "get" and not any(
+                        isinstance(y, int) and not isinstance(y, bool) and 0 < y < len(g.atom_keys) and
+                        g.atom_keys[y][0] not in ("leaf", "sym", "get") for y in k[1:2])):
+                    out.add(x)
+        return frozenset(out)
+
+    contr = {"einsum", "matmul"}
+    if da and db and (ka & contr) != (kb & contr) and leaves(da) == leaves(db):
+        return "undecided"
+    return "differ"
 
 
 def forms_equal(g: GVN, a: Form, b: Form) -> bool:
